@@ -1,0 +1,56 @@
+//go:build verif
+
+package pcrbruteforcer
+
+// Hooks for the external verification harness (/verif, properties C03, C13,
+// C14). Only compiled with `-tags verif`; changes no behaviour of the package.
+
+import (
+	"github.com/9elements/converged-security-suite/v2/pkg/bootflow/subsystems/trustchains/tpm"
+	"github.com/9elements/converged-security-suite/v2/pkg/registers"
+	"github.com/9elements/converged-security-suite/v2/pkg/tpmeventlog"
+)
+
+// VerifLinearSearch runs linearSearch.Process.
+func VerifLinearSearch(
+	limit int,
+	expected []byte,
+	init func() ([]byte, any, error),
+	check func(ctx any, data []byte) (bool, error),
+) (*registers.ACMPolicyStatus, error) {
+	return newLinearSearch(limit, expected).Process(init, check)
+}
+
+// VerifCombinatorialSearch runs combinatorialSearch.Process.
+func VerifCombinatorialSearch(
+	limit int,
+	expected []byte,
+	init func() ([]byte, any, error),
+	check func(ctx any, data []byte) (bool, error),
+) (*registers.ACMPolicyStatus, error) {
+	return newCombinatorialSearch(limit, expected).Process(init, check)
+}
+
+// VerifBruteForceAlignedEventLogs calls bruteForceAlignedEventLogs.
+func VerifBruteForceAlignedEventLogs(
+	settings *SettingsReproduceEventLog,
+	eventsCalculated []*tpm.EventLogEntry,
+	eventsExpected []*tpmeventlog.Event,
+	digestsCalculated []tpm.Digest,
+) ([]bool, []bool, uint64, error) {
+	return bruteForceAlignedEventLogs(settings, eventsCalculated, eventsExpected, digestsCalculated)
+}
+
+// VerifEventAndMeasurementsDistance calls eventAndMeasurementsDistance.
+func VerifEventAndMeasurementsDistance(
+	eventsExpected []*tpmeventlog.Event,
+	evIsSkipped []bool,
+	eventsCalculated []*tpm.EventLogEntry,
+	digestsCalculated []tpm.Digest,
+	mIsSkipped []bool,
+) uint64 {
+	return eventAndMeasurementsDistance(eventsExpected, evIsSkipped, eventsCalculated, digestsCalculated, mIsSkipped)
+}
+
+// VerifIsPhysAddr calls isPhysAddr.
+func VerifIsPhysAddr(addr, imageSize uint64) bool { return isPhysAddr(addr, imageSize) }
